@@ -1379,6 +1379,11 @@ impl Tree {
                 root_to_source.len().min(root_to_target.len())
             });
 
+        // The two nodes are in different components: they share no ancestor
+        if cursor == 0 {
+            return Err(TreeError::RootNotFound);
+        }
+
         Ok(root_to_source[cursor - 1])
     }
 
